@@ -260,7 +260,7 @@ class Sim:
         if self.verbose:
             print(self.steps, *a, flush=True)
 
-    C11_MAP = {("C01", "double-placement"): "job-handed-to-hpc-twice", ("C01", "job-started-twice"): "job-started-twice", ("C02", "started-before-blocker"): "started-before-blocker"}
+    C11_MAP = {("C01", "double-placement"): "job-handed-to-hpc-twice", ("C15", "stage-submitted-twice"): "stage-handed-to-hpc-twice", ("C01", "job-started-twice"): "job-started-twice", ("C02", "started-before-blocker"): "started-before-blocker"}
 
     def viol(self, prop, key, text):
         if self.scen.get("c11") and (prop, key) in self.C11_MAP and self.faults_injected:
